@@ -20,10 +20,10 @@ echo "## existing tests with change: go test -vet=off -count=1 -skip TestSeededD
 go test -vet=off -count=1 -timeout 40m -skip "TestSeededDemo|TestZZSeeded${SKIP:+|$SKIP}" ${runre:+-run "$runre"} $pkg >> $log 2>&1; e1=$?; echo "existing exit=$e1" >> $log
 echo "## demo with change (must fail)" >> $log
 go test -vet=off -count=1 -run "$demo" $pkg 2>&1 | tail -15 >> $log; e2=${PIPESTATUS[0]}; echo "demo-with exit=$e2" >> $log
-cd $wt; git stash -q
+cd $wt; git apply -R $out/patch.diff   # (not git stash: the stash is shared between worktrees)
 cd $wt/$mod
 echo "## demo without change (must pass)" >> $log
 go test -vet=off -count=1 -run "$demo" $pkg 2>&1 | tail -5 >> $log; e3=${PIPESTATUS[0]}; echo "demo-without exit=$e3" >> $log
-cd $wt; git stash pop -q
+cd $wt; git apply $out/patch.diff
 if [ $e1 = 0 ] && [ $e2 != 0 ] && [ $e3 = 0 ]; then echo "CONFIRMED $id" >> $log; else echo "NOT-CONFIRMED $id e1=$e1 e2=$e2 e3=$e3" >> $log; fi
 tail -1 $log
